@@ -85,21 +85,45 @@ def run_connection(spec, fates, default=None, overs=(), lifetime=True, label="",
         if hasattr(conn, "seq"):
             if spec["seqmod"] != REAL_SEQMOD:
                 conn.seq = scp_connection.seqs(mask=spec["seqmod"] - 1)
+            if spec.get("seq0"):
+                # a connection that has been in use for a while: it has already drawn seq0 sequence numbers (drawn
+                # here from its own stream, nothing was transmitted), and the reference allocator of the environment
+                # starts at the same place.  With the real 16-bit space this is how the counter gets to its far end.
+                try:
+                    for _ in range(spec["seq0"]):
+                        next(conn.seq)
+                except Exception as ex:
+                    ev.extend([["burst", 1], ["raise", type(ex).__name__, -1, -1, 0], ["end"]])
+                    return _record(spec, net, overs, lifetime, label, ev)
+                net.start_reference(spec["seq0"])
             # "always terminates", observed: drawing more sequence numbers than exist without transmitting anything
             # in between means the client is searching a sequence space it has itself filled - it would search for ever
             conn.seq = _guarded_seqs(conn.seq, net, spec["seqmod"] + 8)
         for b, bs in enumerate(spec["bursts"], 1):
             ev.append(["burst", b])
 
-            def make_cb(c):
+            cbcost = bs.get("cbcost") or [0] * bs["n"]
+            gencost = bs.get("gencost") or [0] * bs["n"]
+
+            def make_cb(c, cost=0):
                 def cb(packet):
                     p = SCPPacket.from_bytestring(packet, n_args=3)
                     # last field: 1 if the data handed over is, byte for byte, the data the answering machine put
                     # in the reply that names this command and call (mechanical comparison of bytes)
                     ev.append(["callback", c, p.arg2, p.arg1, p.cmd_rc, net.tick(net.now),
                                int(bytes(p.data) == payload(p.arg1, p.arg2, pays.get((p.arg2, p.arg1), 0)))])
+                    # a callback takes time (it copies, parses, writes a file): the clock moves outside select()
+                    if cost:
+                        net.sleep(net.seconds(cost))
                 return cb
-            calls = [scpcall(1, 2, 3, 7, arg1=c, arg2=b, arg3=0, data=b"", callback=make_cb(c),
+
+            def lazily(cs, costs):
+                # a lazy iterable of commands that takes time to produce each one (it reads the data from a file)
+                for call, cost in zip(cs, costs):
+                    if cost:
+                        net.sleep(net.seconds(cost))
+                    yield call
+            calls = [scpcall(1, 2, 3, 7, arg1=c, arg2=b, arg3=0, data=b"", callback=make_cb(c, cbcost[c - 1]),
                              timeout=net.seconds(bs["extra"][c - 1])) for c in range(1, bs["n"] + 1)]
             via = bs.get("via", "list")
             try:
@@ -110,7 +134,9 @@ def run_connection(spec, fates, default=None, overs=(), lifetime=True, label="",
                     ev.append(["callback", 1, r.arg2, r.arg1, r.cmd_rc, net.tick(net.now),
                                int(bytes(r.data) == payload(r.arg1, r.arg2, pays.get((r.arg2, r.arg1), 0)))])
                 elif via == "iter":
-                    conn.send_scp_burst(bs.get("buf", 256), bs["window"], (c for c in calls))
+                    conn.send_scp_burst(bs.get("buf", 256), bs["window"], lazily(calls, gencost))
+                elif via == "tuple":
+                    conn.send_scp_burst(bs.get("buf", 256), bs["window"], tuple(calls))
                 else:
                     conn.send_scp_burst(bs.get("buf", 256), bs["window"], calls)
             except DidNotTerminate:
@@ -130,9 +156,14 @@ def run_connection(spec, fates, default=None, overs=(), lifetime=True, label="",
         ev.append(["end"])
     finally:
         net.uninstall()
-    return dict(t0=spec["t0"], tries=spec["tries"], seqmod=spec["seqmod"],
+    return _record(spec, net, overs, lifetime, label, ev)
+
+
+def _record(spec, net, overs, lifetime, label, ev):
+    return dict(t0=spec["t0"], tries=spec["tries"], seqmod=spec["seqmod"], seq0=spec.get("seq0", 0),
                 bursts=[dict(n=bs["n"], window=bs["window"], extra=list(bs["extra"]), via=bs.get("via", "list"),
-                             buf=bs.get("buf", 256), pay=list(bs.get("pay", ())))
+                             buf=bs.get("buf", 256), pay=list(bs.get("pay", ())),
+                             cbcost=list(bs.get("cbcost") or ()), gencost=list(bs.get("gencost") or ()))
                         for bs in spec["bursts"]],
                 fates=[list(f) for f in net.used], overs=list(overs), lifetime=lifetime, label=label,
                 expired=net.expired, ev=ev)
@@ -212,6 +243,13 @@ def small_specs(chk):
         three = [["lost"], ["ok", [OK, 1]], ["late2", [OK, 2 * t0 + 3]]]
         out.append((dict(t0=t0, tries=2, seqmod=4, bursts=[dict(n=2, window=2, extra=[0, 0]),
                                                            dict(n=3, window=2, extra=[0, 0, 0])]), three, ()))
+    # time passes outside select(): a callback that takes longer than a time-out while another command is unanswered;
+    # a lazy iterable that takes longer than a time-out to produce the next command
+    slow = [["lost"], ["ok", [OK, 1]], ["late1", [OK, t0 + 2]], ["busy", [BUSY, 1]]]
+    out.append((dict(t0=t0, tries=2, seqmod=4, bursts=[dict(n=2, window=2, extra=[0, 0], cbcost=[t0 + 2, 1])]),
+                slow, ()))
+    out.append((dict(t0=t0, tries=2, seqmod=4, bursts=[dict(n=3, window=2, extra=[0, 1, 0], via="iter",
+                                                            gencost=[0, t0 + 1, 2], cbcost=[0, 1, 0])]), slow, ()))
     # send_scp (a burst of one through the blocking interface)
     out.append((dict(t0=t0, tries=2, seqmod=4, bursts=[dict(n=1, window=1, extra=[0], via="scp"),
                                                        dict(n=1, window=1, extra=[2], via="scp")]),
@@ -273,6 +311,88 @@ def random_connection(rng):
         fates.append(f)
     overs = [rng.choice((0, 0, 1, 2)) for _ in range(40)]
     return spec, fates, overs
+
+
+def slow_connection(rng):
+    """a random connection on which time also passes OUTSIDE select(): callbacks take 0 .. more than two time-outs
+    to run, lazy iterables take as long to produce a command (in reality both do: they copy, parse, read files);
+    deadlines can therefore lie in the past when select() is next called (the real select.select rejects a negative
+    time-out with ValueError, and so does the environment's)"""
+    spec, fates, overs = random_connection(rng)
+    t0 = spec["t0"]
+    costs = (1, 2, t0, t0 + 1, 2 * t0 + 3)
+    for bs in spec["bursts"]:
+        if bs["via"] == "scp":
+            continue
+        bs["cbcost"] = [rng.choice(costs) if rng.random() < 0.4 else 0 for _ in range(bs["n"])]
+        if rng.random() < 0.6:
+            bs["via"] = "iter"
+            bs["gencost"] = [rng.choice(costs) if rng.random() < 0.4 else 0 for _ in range(bs["n"])]
+    return spec, fates, overs
+
+
+def aged_connection(rng):
+    """a random connection that has been in use for a while: with the real 16-bit sequence space, the counter wraps
+    from 65535 to 0 somewhere inside its calls"""
+    spec, fates, overs = random_connection(rng)
+    total = sum(b["n"] for b in spec["bursts"])
+    spec["seqmod"] = REAL_SEQMOD
+    spec["seq0"] = REAL_SEQMOD - rng.randint(0, max(total, 1))
+    return spec, fates, overs
+
+
+def long_connection(rng):
+    """the far end of 'all burst lengths, window sizes': hundreds of commands on one connection, windows of 6-32,
+    copies of replies that arrive hundreds of commands later, 64 / 256 / 65536 sequence numbers"""
+    t0 = rng.choice((3, 5, 8))
+    tries = rng.randint(2, 4)
+    w = rng.choice((6, 8, 16, 32))
+    bursts = []
+    for n in (rng.choice((40, 150, 400, 700)), rng.choice((0, 7, 40))):
+        bursts.append(dict(n=n, window=w if bursts == [] else rng.randint(1, w),
+                           extra=[rng.choice((1, 4)) if rng.random() < 0.1 else 0 for _ in range(n)],
+                           via=rng.choice(("list", "iter", "tuple")), buf=256,
+                           pay=[rng.choice((0, 0, 3, 256)) for _ in range(n)]))
+    seqmod = rng.choice((64, 256, REAL_SEQMOD, REAL_SEQMOD))
+    spec = dict(t0=t0, tries=tries, seqmod=seqmod, bursts=bursts)
+    fates = []
+    for _ in range(sum(b["n"] for b in bursts) * 2):
+        u = rng.random()
+        if u < 0.04:
+            fates.append(["lost"])
+        elif u < 0.07:
+            fates.append(["retry", [rng.choice((SUM, BUSY)), rng.randint(0, t0)]])
+        elif u < 0.15:
+            fates.append(["duplate", [OK, rng.randint(0, 2)], [OK, rng.randint(t0, 120)]])
+        elif u < 0.19:
+            fates.append(["late", [OK, rng.randint(t0, 3 * t0)]])
+        else:
+            fates.append(["ok", [OK, rng.randint(0, 2)]])
+    overs = [rng.choice((0, 0, 1)) for _ in range(40)]
+    return spec, fates, overs
+
+
+def aimed_connection(rng, dist):
+    """many commands on one connection with the real sequence space, and copies of replies aimed at the reference
+    rule: the copy of the reply to command i arrives one tick after command i + dist has been transmitted (and
+    while it is unanswered: every reply takes two ticks).  The instants are read off a first run of the same call with prompt replies only (no oracle: the
+    first run only tells when the code transmits).  Under the rule the two commands have different numbers as long
+    as dist is not a multiple of 65536, and the copy must be ignored."""
+    w = rng.choice((2, 4, 8))
+    n = dist + rng.randint(1, 2 * w)
+    spec = dict(t0=5, tries=3, seqmod=REAL_SEQMOD, seq0=rng.choice((0, 0, 77, 65000)),
+                bursts=[dict(n=n, window=w, extra=[0] * n, via=rng.choice(("list", "tuple", "iter")), buf=256,
+                             pay=[0] * n)])
+    fates = [["ok", [OK, 2]] for _ in range(n)]         # every reply takes two ticks; the copy arrives in between
+    first = run_connection(spec, fates, default=["ok", [OK, 2]], label="aim")
+    sent = {}
+    for e in first["ev"]:
+        if e[0] == "send":
+            sent.setdefault(e[2], e[4])
+    for i in rng.sample(range(1, n - dist + 1), min(3, n - dist)):
+        if i in sent and i + dist in sent and sent[i + dist] - sent[i] > 1:
+            fates[i - 1] = ["aimed", [OK, 2], [OK, sent[i + dist] - sent[i] + 1]]
+    return spec, fates, ()
 
 
 # ------------------------------------------------------------------------------------------ behaviours from TLC
@@ -359,7 +479,7 @@ def validate_parallel(chk, traces, nproc=8):
 
 
 def spec_of(tr):
-    return dict(t0=tr["t0"], tries=tr["tries"], seqmod=tr["seqmod"], bursts=tr["bursts"])
+    return dict(t0=tr["t0"], tries=tr["tries"], seqmod=tr["seqmod"], seq0=tr.get("seq0", 0), bursts=tr["bursts"])
 
 
 def tally(chk, tr):
@@ -468,6 +588,31 @@ def run(chk):
             chk.sample(t)
         chk.note_case((spec_of(t), t["fates"], t["overs"]), nontrivial=nontrivial(t))
         judge()
+    # further families, each with its own random stream (the cases above are the same as before they were added)
+    families = (("slow", slow_connection, chk.pick(600, 15000), 11),
+                ("aged", aged_connection, chk.pick(60, 1500), 12),
+                ("long", long_connection, chk.pick(6, 100), 13))
+    for name, make, count, salt in families:
+        frng = random.Random(chk.seed * 1000 + salt)
+        for i in range(count):
+            spec, fates, overs = make(frng)
+            t = run_connection(spec, fates, default=["ok", [OK, 1]], overs=overs, label="random-" + name)
+            pending.append(t)
+            if i == 0 and name != "long":
+                chk.sample(t, limit=7)
+            chk.note_case((spec_of(t), t["fates"], t["overs"]), nontrivial=nontrivial(t))
+            chk.count("connections of family " + name)
+            if any(b["cbcost"] or b["gencost"] for b in t["bursts"]):
+                chk.count("zero-time-out selects on connections of family slow",
+                          sum(1 for k, e in enumerate(t["ev"]) if e[0] == "select" and e[1] == 0 and e[4] is False))
+            judge()
+    frng = random.Random(chk.seed * 1000 + 14)
+    for dist in chk.pick((256, 512), (128, 256, 512, 1024, 2048, 4096)):
+        spec, fates, overs = aimed_connection(frng, dist)
+        t = run_connection(spec, fates, default=["ok", [OK, 1]], overs=overs, label="aimed-%d" % dist)
+        pending.append(t)
+        chk.note_case((spec_of(t), t["fates"], t["overs"]), nontrivial=nontrivial(t))
+        chk.count("connections of family aimed")
     judge(force=True)
     chk.count("traces rejected", len(rej))
     chk.rule = ("the real send_scp_burst / send_scp on virtual time against a network that decides the fate of every "
@@ -479,6 +624,15 @@ def run(chk):
                 "TLC's simulator replayed as schedules, then seeded random connections: 1-3 calls, 0-12 commands, "
                 "window 1-5, 1-5 tries, extra time-outs, 2/4/8/16/65536 sequence numbers (always more than the "
                 "window), select overshoot 0-2 ticks, lists and lazy iterables, send_scp for single commands.  "
+                "Then three further families: 'slow' - the same connections with callbacks and lazy iterables that "
+                "take 0 to 2 t0 + 3 ticks each (time passes outside select, deadlines lie in the past when select "
+                "is entered; the environment's select, like the real one, raises ValueError on a negative "
+                "time-out); 'aged' - 65536 sequence numbers and a counter already advanced to within one call of "
+                "65536, so that it wraps inside the calls; 'long' - 40-700 commands in one call, windows 6-32, "
+                "64/256/65536 sequence numbers, copies of replies arriving up to 120 ticks (hundreds of commands) "
+                "late, tuples as well as lists and iterables; 'aimed' - 65536 sequence numbers, 256 / 512 (thorough: up "
+                "to 4096) + a few commands in one call, and a copy of the reply to command i that arrives at the "
+                "tick after command i + 256 / 512 has been transmitted, before that command's own reply.  "
                 "non-trivial = the schedule contains at least one fate other than a prompt ok reply; distinct = "
                 "distinct (connection parameters, calls, applied schedule, overshoots)")
     chk.exhaustive = False
@@ -489,7 +643,8 @@ def run(chk):
                            "callback that results without the assumption")
     chk.assumptions.append("requests are lost or delivered at once, never delayed or duplicated; replies may be lost, "
                            "delayed arbitrarily, reordered and duplicated (the fault alphabet of the statement)")
-    chk.assumptions.append("time passes only inside select(); select never returns before its time-out unless a "
+    chk.assumptions.append("time passes inside select() and, in the 'slow' family, inside callbacks and lazy iterables "
+                           "of commands (never inside send/recv); select never returns before its time-out unless a "
                            "datagram is due, may overshoot by 0-2 ticks, and a fruitless zero-time-out select repeated "
                            "at the same instant costs one tick (the clock cannot stand still for ever)")
     chk.assumptions.append("the sequence space is shrunk with rig's own seqs(mask=...) parameter and is always larger "
